@@ -313,7 +313,33 @@ struct B {
 		"Long":  jb("string"),
 		"B":     jm{"s": jm{"1": jfield("again", jb("string"))}},
 	}}}
+	// enum members that share a number (legal Thrift: aliases); documentation/json.md:
+	// "e" maps each value to the list of names declared for it, in order
+	aliases := `namespace go al
+
+enum Shade {
+  RED = 1,
+  CRIMSON = 1,
+  GREEN = 2,
+  GREY = 5,
+  GRAY = 5
+}
+
+enum Plain { A, B }
+`
+	ja := func(names ...string) []interface{} {
+		var out []interface{}
+		for _, n := range names {
+			out = append(out, n)
+		}
+		return out
+	}
+	wantAliases := jm{"al": jm{"t": jm{
+		"Shade": jm{"e": jm{"1": ja("RED", "CRIMSON"), "2": ja("GREEN"), "5": ja("GREY", "GRAY")}},
+		"Plain": jm{"e": jm{"0": ja("A"), "1": ja("B")}},
+	}}}
 	return []jsonWitness{
+		{Name: "enum-aliases", Files: [][2]string{{"al.frugal", aliases}}, Want: wantAliases},
 		{Name: "across-includes", Files: [][2]string{{"inc.frugal", inc}, {"main.frugal", root}}, Want: want},
 		{Name: "one-file", Files: [][2]string{{"w.frugal", single}}, Want: wantSingle},
 	}
